@@ -63,7 +63,7 @@ def make_variable_handler(
         if len(data) < size:
             return pc + 1, None
         if verify_minimal_data:
-            if size in sized_values or size <= min_size:
+            if size in sized_values or size < min_size:
                 non_minimal_data_handler("not minimal push of data with size %d" % size)
         return pc + size, data
 
@@ -148,7 +148,8 @@ class ScriptStreamer(object):
 
         # deal with variable data opcodes
 
-        min_size = 0
+        # empty data is pushed by a constant opcode, so no variable opcode is minimal for it
+        min_size = 1
         for o, max_size, enc_f, dec_f in opcode_variable_list:
             self.decoder[opcode_lookup.get(o)] = make_variable_handler(
                 dec_f, self.sized_encoder.keys(), min_size, non_minimal_data_handler
